@@ -156,7 +156,6 @@ func VerifC04_CrashPrefix() {
 	}
 
 	// reopen
-	vs.Known("C04-head-pointer-before-block-flush", firstRef >= 0 && k > firstRef && k <= flush)
 	want := GetHeadBlockHash(crashed)
 	var bc2 *BlockChain
 	var oerr error
@@ -181,7 +180,6 @@ func VerifC04_CrashPrefix() {
 	}
 	head2 := bc2.CurrentBlock()
 	vs.Assert(head2.Hash() == h, "reopened head = last durable head pointer (pruning: nearest ancestor with flushed state)")
-	vs.Known("", true)
 
 	// number index agrees with the reopened head's ancestry
 	vs.Known("C04-reorg-canonical-before-head-pointer", isReorg && k > firstCanon && k <= firstLB)
@@ -197,6 +195,7 @@ func VerifC04_CrashPrefix() {
 	}
 	vs.Known("", true)
 	vs.Assert(bc2.CurrentHeader() != nil && bc2.CurrentFastBlock() != nil, "header and fast heads restored")
+	vs.Assert(firstRef < 0 || firstRef > flush, "write order: no canonical number / head pointer names the block before the batch holding its header is flushed")
 }
 
 // VerifC04_ImportWriteFailure: see the file comment.
@@ -229,13 +228,6 @@ func VerifC04_ImportWriteFailure() {
 	// durable pointer must name it
 	head := bc.CurrentBlock()
 	vs.Assert(GetHeadBlockHash(f.db) == head.Hash(), "after a failed import the durable head pointer names the in-memory head")
-	firstRef := -1
-	for i, w := range r.log {
-		if !w.batch && !w.ops[0].del && firstRef < 0 && bytes.Equal(w.ops[0].v, r.blk.Hash().Bytes()) {
-			firstRef = i
-		}
-	}
-	vs.Known("C04-head-pointer-before-block-flush", firstRef >= 0 && head.Hash() == r.blk.Hash())
 	vs.Assert(GetBlockNoVersion(f.db, head.Hash(), head.NumberU64()) != nil, "after a failed import the head block is on disk")
 	vs.Assert(GetTd(f.db, head.Hash(), head.NumberU64()) != nil, "after a failed import the head's TD is on disk")
 	// and a restart on the store as the failure left it works
@@ -244,7 +236,6 @@ func VerifC04_ImportWriteFailure() {
 	panicked := vs.NoPanic(func() { bc2, _, oerr = c02Open(f.db.clone(), f.cfg, r.archive) })
 	vs.Assert(!panicked, "reopening the database after a failed write does not panic")
 	vs.Assert(oerr == nil && bc2 != nil, "reopening the database after a failed write succeeds")
-	vs.Known("", true)
 }
 
 var _ = common.Hash{}
